@@ -30,6 +30,7 @@ type Origin struct {
 	reqs   []*Req
 	run    int
 	Assets int // assets per page
+	Links  int // absolute <a href> outlinks per /p page (0 = none)
 	// stall: when the K-th request reaches Phase ("arrival" | "midbody" | "complete") Event is signalled and the
 	// handler waits for Release (or 15 s)
 	StallK     int
@@ -108,6 +109,11 @@ func (o *Origin) handle(w http.ResponseWriter, r *http.Request) {
 		sb.WriteString("<!DOCTYPE html><html><head><title>t</title></head><body>\n")
 		for j := 0; j < o.Assets; j++ {
 			fmt.Fprintf(&sb, "<img src=\"%s/a%d.png\">\n", r.URL.Path, j)
+		}
+		if strings.HasPrefix(r.URL.Path, "/p") && !strings.Contains(r.URL.Path[1:], "/") {
+			for j := 0; j < o.Links; j++ {
+				fmt.Fprintf(&sb, "<a href=\"http://%s/l%d-%s\">link</a>\n", o.Addr(), j, r.URL.Path[1:])
+			}
 		}
 		sb.WriteString(strings.Repeat("<p>filler text to make the body a little longer</p>\n", 40))
 		sb.WriteString("</body></html>\n")
